@@ -50,6 +50,7 @@ int g_low_prio = 0;
 int g_idle_rounds = 0;
 
 thread_local int tls_tid = -1;
+thread_local bool tls_quiet = false;
 
 void sort_names()
 {
@@ -177,7 +178,7 @@ void sched_point( int me )
 bool pre_op( void const* ) noexcept
 {
     int me = tls_tid;
-    if ( me < 0 || !g_active )
+    if ( me < 0 || !g_active || tls_quiet )
         return false;
     sched_point( me );
     return g_cfg.trace;
@@ -217,7 +218,7 @@ void post_op( OpKind k, void const* addr, unsigned size, bool isptr, void const*
 void spin_hint() noexcept
 {
     int me = tls_tid;
-    if ( me < 0 || !g_active )
+    if ( me < 0 || !g_active || tls_quiet )
         return;
     ++g_stats.yields;
     g_yielded[me] = true;
@@ -260,6 +261,7 @@ std::string name_of( void const* addr )
 // ---------------------------------------------------------------- client events
 
 int current_tid() { return tls_tid; }
+void set_quiet( bool q ) { tls_quiet = q; }
 uint64_t tick() { return ++g_clock; }
 
 void ev_note( std::string const& s )
